@@ -1,4 +1,7 @@
 import SV.Common
+import SV.CommonProofs
 import SV.Shard
 import SV.ShardProofs
+import SV.TxCache.Model
+import SV.TxCache.Spec
 import SV.Props.C19
